@@ -202,6 +202,13 @@ func judgeObligations(m *Model, seqs map[seqKey][]*Attempt, sendResolvedOf func(
 						wait = rt.GroupWait
 					}
 				}
+				// whichever alert of the group the new dispatcher loads first creates the group and alone decides
+				// between the immediate flush and group_wait: a resolved member the provider may still hold counts too
+				for _, mk := range members2 {
+					if v := m.Alerts.LastKnown(mk, R); v != nil && !v.Start.Add(rt.GroupWait).Before(R) {
+						wait = rt.GroupWait
+					}
+				}
 				if e2 := R.Add(wait + rt.GroupInterval + deliverySlack); e2.After(end) {
 					end = e2
 				}
